@@ -76,6 +76,23 @@ TRANSPORT = [
       encodes=["Icmpv6Slice::from_slice + accessors + icmp_type + header + payload_slice", "Icmpv6Header::from_slice"]),
 ]
 
+PACKET = [
+    H("c01_pk_sliced_ethernet", "c01::packet", tier="thorough", unwind=5, timeout=7200, bounds="every byte string of length 0..=56, exact-size object", encodes=["SlicedPacket::from_ethernet + every accessor / iterator of the result"]),
+    H("c01_pk_sliced_sll", "c01::packet", tier="thorough", unwind=5, timeout=7200, bounds="every byte string of length 0..=56, exact-size object", encodes=["SlicedPacket::from_linux_sll + accessors"]),
+    H("c01_pk_sliced_ether_type", "c01::packet", tier="thorough", unwind=5, timeout=7200, bounds="every ether type x every byte string of length 0..=48, exact-size object", encodes=["SlicedPacket::from_ether_type + accessors"]),
+    H("c01_pk_sliced_ip", "c01::packet", tier="thorough", unwind=5, timeout=7200, bounds="every byte string of length 0..=56, exact-size object", encodes=["SlicedPacket::from_ip + accessors"]),
+    H("c01_pk_lax_sliced_ethernet", "c01::packet", tier="thorough", unwind=5, timeout=7200, bounds="every byte string of length 0..=56, exact-size object", encodes=["LaxSlicedPacket::from_ethernet + accessors"]),
+    H("c01_pk_lax_sliced_ether_type", "c01::packet", tier="thorough", unwind=5, timeout=7200, bounds="every ether type x every byte string of length 0..=48, exact-size object", encodes=["LaxSlicedPacket::from_ether_type + accessors"]),
+    H("c01_pk_lax_sliced_ip", "c01::packet", tier="thorough", unwind=5, timeout=7200, bounds="every byte string of length 0..=56, exact-size object", encodes=["LaxSlicedPacket::from_ip + accessors"]),
+    H("c01_pk_headers_ethernet", "c01::packet", tier="thorough", unwind=5, timeout=7200, bounds="every byte string of length 0..=56, exact-size object", encodes=["PacketHeaders::from_ethernet_slice"]),
+    H("c01_pk_headers_ether_type", "c01::packet", tier="thorough", unwind=5, timeout=7200, bounds="every ether type x every byte string of length 0..=48, exact-size object", encodes=["PacketHeaders::from_ether_type"]),
+    H("c01_pk_headers_ip", "c01::packet", tier="thorough", unwind=5, timeout=7200, bounds="every byte string of length 0..=56, exact-size object", encodes=["PacketHeaders::from_ip_slice"]),
+    H("c01_pk_lax_headers_ethernet", "c01::packet", tier="thorough", unwind=5, timeout=7200, bounds="every byte string of length 0..=56, exact-size object", encodes=["LaxPacketHeaders::from_ethernet"]),
+    H("c01_pk_lax_headers_sll", "c01::packet", tier="thorough", unwind=5, timeout=7200, bounds="every byte string of length 0..=56, exact-size object", encodes=["LaxPacketHeaders::from_linux_sll"]),
+    H("c01_pk_lax_headers_ether_type", "c01::packet", tier="thorough", unwind=5, timeout=7200, bounds="every ether type x every byte string of length 0..=48, exact-size object", encodes=["LaxPacketHeaders::from_ether_type"]),
+    H("c01_pk_lax_headers_ip", "c01::packet", tier="thorough", unwind=5, timeout=7200, bounds="every byte string of length 0..=56, exact-size object", encodes=["LaxPacketHeaders::from_ip"]),
+]
+
 PROP = {
     "claim": "for every byte string up to the per-harness length N, placed in a heap object of exactly its length, the "
              "decoder, all accessors, conversions and iterators perform no access outside the object (CBMC pointer "
@@ -83,5 +100,5 @@ PROP = {
              "unreachable_unchecked, debug_assert in *_unchecked) and every returned sub-slice lies inside the input",
     "outside": "inputs longer than N; reads of uninitialised memory; aliasing-model UB",
     "assumptions": [],
-    "harnesses": LINK + NET + TRANSPORT,
+    "harnesses": LINK + NET + TRANSPORT + PACKET,
 }
